@@ -94,7 +94,12 @@ func (m Modules) Len() int {
 }
 
 func (m Modules) Less(i, j int) bool {
-	return m[i].Name < m[j].Name
+	if m[i].Name != m[j].Name {
+		return m[i].Name < m[j].Name
+	}
+	// Files in different directories may share a base name: the modules come
+	// out of a map, so the order needs a tie-break to be deterministic.
+	return m[i].File < m[j].File
 }
 
 func (m Modules) Swap(i, j int) {
